@@ -148,7 +148,7 @@ static unsigned qserial;
 static vh_buf_t last_resp; /* response to the most recent query for a pushed entry (samples only) */
 static void query_and_check(vh_ctx_t * v, const entry_t * e_in) {
     static resp_t r;
-    static unsigned char S[64 + 1 + MAXTEXT + 4];
+    static unsigned char S[640 + 1 + MAXTEXT + 4]; /* description (user error lists may have long ones) ; text */
     entry_t none; const entry_t * e = e_in;
     const char * sp = spellings[qserial++ % (sizeof spellings / sizeof spellings[0])];
     const char * why, * desc; int is_fb = 0;
